@@ -4,18 +4,21 @@ import FxVerif.Model.Util
 
 Fixed configuration shared with `go/harness/c04`: 3 chains (eth, bsc, polygon), 3 users, token groups
 0 = FX (eth), 1 = module-owned (eth), 2 = module-owned (eth, bsc, polygon), 3 = externally-owned (eth),
-4 = externally-owned (eth, bsc), 5 = module-owned (bsc) with an IBC voucher alias (transfer/channel-0).  Initial holdings: every user 1000 FX and 500 of each external ERC-20. -/
+4 = externally-owned (eth, bsc), 5 = module-owned (bsc) with an IBC voucher alias (transfer/channel-0), 6 = externally-owned (eth), a
+hand-assembled token that signals failure by revert / false / nothing (the model does not depend on the style:
+`Props/C04.lean keeper_transfer_is_send`).  Initial holdings: every user 1000 FX and 500 of each external ERC-20 of groups 3, 4;
+group 6: user 0 500, user 1 25, user 2 nothing. -/
 open FxVerif FxVerif.Util FxVerif.Model.Ledger FxVerif.Model.Flows FxVerif.Model.C04
 
-def nGroups : Nat := 6
+def nGroups : Nat := 7
 def nUsers : Nat := 3
 
 def cfg0 : Cfg where
   kind := fun g => match g with
     | 0 => some .fx | 1 => some .moduleOwned | 2 => some .moduleOwned
-    | 3 => some .externalOwned | 4 => some .externalOwned | 5 => some .moduleOwned | _ => none
+    | 3 => some .externalOwned | 4 => some .externalOwned | 5 => some .moduleOwned | 6 => some .externalOwned | _ => none
   onChain := fun g c => match g, c with
-    | 0, 0 => true | 1, 0 => true | 2, _ => true | 3, 0 => true | 4, 0 => true | 4, 1 => true | 5, 1 => true | _, _ => false
+    | 0, 0 => true | 1, 0 => true | 2, _ => true | 3, 0 => true | 4, 0 => true | 4, 1 => true | 5, 1 => true | 6, 0 => true | _, _ => false
   envBound := true
   ibcAlias := fun g => g == 5
 
@@ -26,11 +29,13 @@ def ledger0 (m0fx : Nat) : Ledger where
     | .base 0, .chainMod 0 => m0fx
     | .erc 3, .user u => if u < nUsers then 500 else 0
     | .erc 4, .user u => if u < nUsers then 500 else 0
+    | .erc 6, .user 0 => 500
+    | .erc 6, .user 1 => 25
     | _, _ => 0
   supply := fun a => match a with
-    | .base 0 => 3000 | .erc 3 => 1500 | .erc 4 => 1500 | _ => 0
+    | .base 0 => 3000 | .erc 3 => 1500 | .erc 4 => 1500 | .erc 6 => 525 | _ => 0
   owner := fun a => match a with
-    | .erc 3 => some (.ext 1) | .erc 4 => some (.ext 1)
+    | .erc 3 => some (.ext 1) | .erc 4 => some (.ext 1) | .erc 6 => some (.ext 1)
     | .erc _ => some .erc20Mod
     | _ => none
 
